@@ -61,6 +61,13 @@ TraceSwitch ==
      ELSE /\ st' = SpecSwitch(st, Ev.obj, Ev.ch)
           /\ UNCHANGED memo               \* as-built bookkeeping: nothing invalidated (classification only)
           /\ l' = l + 1 /\ UNCHANGED <<blk, tid, known, verdict>>
+TraceRefused ==
+  /\ Running /\ Ev.ev = "refused"
+  /\ IF ~(Ev.obj \in DOMAIN st /\ MustRefuse(T.number, Ev.ch)) THEN Fail("OOD event")
+     ELSE IF Ev.off THEN Fail("REJECT OnGrid:refused")
+     ELSE IF StateOf(Ev.state) # SpecRefused(st, Ev.obj)[Ev.obj] \/ Ev.aux # Ev.aux_before THEN Fail("REJECT RefusedRequestChangedState")
+     ELSE /\ st' = SpecRefused(st, Ev.obj)
+          /\ l' = l + 1 /\ UNCHANGED <<blk, tid, memo, known, verdict>>
 TraceCopy ==
   /\ Running /\ Ev.ev = "copy"
   /\ IF ~(Ev.src \in DOMAIN st /\ Ev.dst = Cardinality(DOMAIN st) + 1) THEN Fail("OOD event")
@@ -71,6 +78,6 @@ TraceCopy ==
           /\ l' = l + 1 /\ UNCHANGED <<blk, tid, known, verdict>>
 Finish == /\ tid > 0 /\ verdict = "" /\ l = Len(T.events) + 1
           /\ verdict' = "ACCEPT" /\ Report("ACCEPT") /\ UNCHANGED <<blk, tid, l, st, memo, known>>
-Next == PickBlock \/ PickTrace \/ TraceQuery \/ TraceSwitch \/ TraceCopy \/ Finish
+Next == PickBlock \/ PickTrace \/ TraceQuery \/ TraceSwitch \/ TraceRefused \/ TraceCopy \/ Finish
 TraceSpec == Init /\ [][Next]_vars
 =============================================================================
